@@ -58,7 +58,8 @@ void h_ms_encoder_init(void)
       CANARY("illegal counts"); return;
    }
    for (i = 0; i < VERIF_CH; i++) mapping[i] = nondet_uchar();
-   base = malloc(size); __CPROVER_assume(base != NULL); st = (OpusMSEncoder *)base;
+   /* constant-size object (a symbolic-size one exhausts the solver's memory); that every stream state lies inside get_size() bytes is asserted explicitly below */
+   base = malloc(ST_OFF(VERIF_ST, VERIF_ST)); __CPROVER_assume(base != NULL); st = (OpusMSEncoder *)base;
    ret = opus_multistream_encoder_init(st, Fs, channels, streams, coupled, mapping, app);
    {  int layout_ok = 1, fed;
       for (i = 0; i < VERIF_CH; i++) if (i < channels && mapping[i] != 255 && mapping[i] >= streams + coupled) layout_ok = 0;
